@@ -814,6 +814,16 @@ func (m *models) leq(a, b value) bool {
 	panic(engineError{"leq"})
 }
 
+// timerInstant moves the clock to the instant timer t fires: a real timer never fires before its
+// deadline and in practice a little after it; one nanosecond of lateness is modelled, which also
+// guarantees progress of loops that re-arm a zero-length timer.
+func (m *models) timerInstant(t *timer) {
+	late := m.addNs(t.deadline, int64(1))
+	if m.leq(m.now, late) {
+		m.now = late
+	}
+}
+
 func (m *models) addTimer(d value, fire func()) *timer {
 	m.timerSeq++
 	t := &timer{deadline: m.addNs(m.now, d), fire: fire, active: true, seq: m.timerSeq}
@@ -841,9 +851,7 @@ func (m *models) fireNextTimer() bool {
 	if t == nil {
 		return false
 	}
-	if !m.leq(t.deadline, m.now) {
-		m.now = t.deadline
-	}
+	m.timerInstant(t)
 	t.active = false
 	t.fire()
 	m.gcTimers()
@@ -858,15 +866,15 @@ func (m *models) advance(d value) {
 		if t == nil || !m.leq(t.deadline, target) {
 			break
 		}
-		if !m.leq(t.deadline, m.now) {
-			m.now = t.deadline
-		}
+		m.timerInstant(t)
 		t.active = false
 		t.fire()
 		// let the woken threads run at the instant their timer fired
 		m.drain()
 	}
-	m.now = target
+	if m.leq(m.now, target) {
+		m.now = target
+	}
 	m.gcTimers()
 }
 
